@@ -26,7 +26,7 @@ cp $MD/patch.diff $OUT/patch.diff; cp $MD/demo_test.go $OUT/demo_test.go; cp $MD
 R=${SEED_REPO:-/repo}   # SEED_REPO=<worktree>: check a scratch tree instead of /repo (lets several seeds run in parallel)
 cd $R && git apply $OUT/patch.diff || { echo "PATCH DOES NOT APPLY TO $R"; exit 3; }
 t0=$(date +%s)
-res=$(cd /verif && VERIF_REPO=$R VERIF_EVIDENCE_DIR=/tmp/verif-seed-evidence-$P VERIF_NO_TV=1 timeout 1500 /verif/bin/vcheck run $P "$@" 2>&1 | grep -a "VIOLATION\|^C[0-9]* tier\|INCONCLUSIVE" | head -6)
+res=$(cd /verif && VERIF_REPO=$R VERIF_EVIDENCE_DIR=/tmp/verif-seed-evidence-$P VERIF_OUT_DIR=/tmp/verif-seed-out-$$ VERIF_NO_TV=1 timeout 1500 /verif/bin/vcheck run $P "$@" 2>&1 | grep -a "VIOLATION\|^C[0-9]* tier\|INCONCLUSIVE" | head -6)
 rc=$?
 t1=$(date +%s)
 git -C $R checkout -q -- .
